@@ -794,7 +794,7 @@ def get_index_variant(indices: IndexType) -> IndexVariant:
             variant = IndexVariant.SUBSCRIPTS
     elif isinstance(indices, tuple):
         variant = IndexVariant.SUBTENSOR
-    elif isinstance(indices, Sequence) and isinstance(indices[0], int):
+    elif isinstance(indices, Sequence) and isinstance(indices[0], (int, np.integer)):
         # TODO this is slightly redundant/inefficient
         key = np.array(indices)
         if len(key.shape) == 1 or key.shape[1] == 1:
